@@ -168,6 +168,26 @@ EXTRA6 = {
 for k, v in EXTRA6.items():
     CLAIMS[k] = (CLAIMS[k][0] + v, CLAIMS[k][1])
 
+EXTRA7 = {
+ "C01": " The database filter keeps both brackets of a transaction: MULTI and EXEC are never dropped for the selected database (W40); the rebuilt slot-range list does not overwrite a stored range before it was read (shared with C10).",
+ "C02": " In transactional mode no flush stores a resume position while a source transaction is open, other than the one requested at EXEC.",
+ "C04": " An error of applying a snapshot entry ends the replay worker: from every call that is handed the entry no path that has seen its error goes on to the next entry or returns nil.",
+ "C06": " An optional capability asserted on the output field (DropStartPoint) is not hidden by a wrapper type stored there.",
+ "C07": " The per-database 'holds the run id' set is keyed by the database of the last command queued in the same batch, and never by the label of an item the sender made itself (W33); a failed removal of the old id's records ends DropStartPoint (shared with C06).",
+ "C08": " Snapshot verification answers 'not corrupted' only after computed == stored checksum; the verification switch travels from GetReader to every open unweakened.",
+ "C10": " The rebuilt slot-range list has storage of its own or is written no faster than the stored ranges are read.",
+ "C11": " A key resolution keeps nothing of the command it resolved for a later one (shared with C18).",
+ "C12": " No bulk length the protocol allows (up to 512 MiB) is refused; every decoder handed out counts from zero.",
+ "C13": " The recogniser of the tool's own transactions steps over the master's lazy-expiry DEL / UNLINK of the volatile marker (W38).",
+ "C14": " A connection left in an unspecified database by a walk over the databases is re-selected before any database-dependent command (W36); in sync mode the start point is what the target committed, never the in-process resume point.",
+ "C17": " A mode migration carries over the greater of the old namespace's mode state and its root checkpoint (W35).",
+ "C18": " A key resolution keeps nothing of the command it resolved; the replay's result is the first error published on the wait-closer the parser reports its refusal to.",
+ "C19": " A failed send or receive of one pipelined request ends every request in flight on that connection and gives the connection up; on a cluster target the synchronous sender sends the checkpoint alone, after the batch it covers succeeded (W39).",
+ "C20": " A snapshot worker handles an entry only after the connection was switched to the entry's database; no piece of the bidirectional key-exists mechanism stands under a test the empty key fails (W37).",
+}
+for k, v in EXTRA7.items():
+    CLAIMS[k] = (CLAIMS[k][0] + v, CLAIMS[k][1])
+
 NOT_YET = "check not built yet in this revision (planned, see DESIGN.md section 3)"
 
 def main():
